@@ -9,7 +9,9 @@
 (*   alive    the client was still running when the feed had been idle     *)
 (*   mode     hold | close | retry ; exit, panic                           *)
 (* Level A: the well-formed lines are processed exactly once and in order  *)
-(* whatever the segmentation; nothing terminates the client but the server *)
+(* whatever the segmentation, and nothing else is processed as a frame     *)
+(* (no part of a malformed line, no line that lost some of its bytes);     *)
+(* nothing terminates the client but the server                            *)
 (* closing the connection, upon which radar exits with status 0, or with   *)
 (* retry reconnects and still tracks what it tracked.                      *)
 (***************************************************************************)
@@ -30,6 +32,10 @@ EvDiff(ev) ==
       ELSE IF Len(got) < Len(want) /\ got = SubSeq(want, 1, Len(got)) /\ ev.alive = 0 THEN {}   \* the crash is the finding, not the lines after it
       ELSE IF \E i \in 1..Len(want) : want[i] \notin SeqSet(got) THEN {"line_lost"}
       ELSE IF Len(got) > Len(want) THEN {"line_duplicated"} ELSE {"line_order"})
+     \* lines that are not well-formed frames are skipped: every well-formed text the client took (`taken`: the printed
+     \* entries that are hex digits in pairs) is what the clients' framing makes of a complete line of the feed (`body`: the
+     \* line without its first character and its last one before the newline - neither client looks at those two)
+     \cup (IF \E i \in 1..Len(ev.taken) : ev.taken[i] \notin {ev.sent[k].body : k \in 1..Len(ev.sent)} THEN {"malformed_line_processed"} ELSE {})
      \cup (IF ev.panic = 1 THEN {"panic"} ELSE {})
      \cup (IF ev.mode = "hold" /\ ev.alive = 0 THEN {"terminated"} ELSE {})
      \cup (IF ev.mode = "close" /\ ev.client = "radar" /\ ~(ev.alive = 0 /\ ev.exit = 0) THEN {"disconnect_exit"} ELSE {})
